@@ -32,11 +32,11 @@ def run_property(prop, tier, seed, quiet=False, only_key=None):
             selftest = st.run_for(prop, seed)
     except AnalysisError as exc:
         print(f"ANALYSIS-ERROR property={prop} {exc}")
-        return 2
+        return _partial(prop, locals().get('ctx'))
     except Exception:
         print(f"ANALYSIS-ERROR property={prop} internal error")
         traceback.print_exc(file=sys.stdout)
-        return 2
+        return _partial(prop, locals().get('ctx'))
     if not ctx.obs:
         print(f"ANALYSIS-ERROR property={prop} no obligations were enumerated (a rule matching nothing cannot pass)")
         return 2
@@ -90,6 +90,30 @@ def run_property(prop, tier, seed, quiet=False, only_key=None):
         if selftest is not None:
             print(f"  selftest: fired {selftest['fired']} silent {selftest['silent']} skipped {selftest['skipped']}")
     return 1 if nviol else 0
+
+
+def _partial(prop, ctx):
+    """The analysis gave up part-way.  Obligations that had already been decided as violated stay violations (they
+    were derived before the point of failure and do not depend on what could not be interpreted): they are reported
+    and the exit code is 1.  With none, the run is an analysis error (exit 2).  No evidence is written."""
+    from . import report
+    if ctx is None:
+        return 2
+    known = report.load_known()
+    nviol = 0
+    for o in ctx.obs:
+        if o.ok or report.match_known(o, prop, known) is not None:
+            continue
+        if nviol == 0:
+            report.clear_violations(prop)
+        nviol += 1
+        path = report.write_violation(prop, nviol, o)
+        print(f"VIOLATION property={prop} replay={path}")
+        print(f"  {o.file}:{o.line}  {o.func}  {o.rule}  {o.instance}  [{o.fact}]  {o.why}")
+    if nviol:
+        print(f"{prop}: analysis incomplete, {nviol} violation(s) established before it stopped")
+        return 1
+    return 2
 
 
 def replay(path):
